@@ -324,4 +324,34 @@ def s_orphan(rng):
     return decorate(rng, d.states, tuple(events), (), d.strict)._replace(mode="meta")
 
 
-SAMPLERS = {"early": s_early, "random": s_random, "wf": s_wf, "big": s_big, "orphan": s_orphan}
+def s_anyfinal(rng):
+    """`<final>.from_.any()` declared *before* some of the states: it covers the states registered so far only. The
+    states declared later are reachable and have transitions of their own — among themselves, back to earlier states,
+    sometimes to the final state: whether every state can reach a final one has to be worked out by walking, not
+    concluded from the presence of an any() to a final state."""
+    n = rng.randint(3, 6)
+    k = rng.randint(2, n - 1)                    # states 0..k-1 are declared before the any() event
+    states = tuple((j == 0, j == 1) for j in range(n))
+    events = [(k, (("a", 1, False),))]
+    late = list(range(k, n))
+    early = [0] + list(range(2, k))
+    specs = []
+    for j in late:                               # every late state is entered from somewhere and has a way out
+        specs.append(("e", rng.choice(early + [x for x in late if x < j]), j, False))
+        r = rng.random()
+        if r < 0.35:
+            specs.append(("e", j, j, False))
+        elif r < 0.6:
+            specs.append(("e", j, rng.choice(late), False))
+        elif r < 0.8:
+            specs.append(("e", j, rng.choice(early), False))
+        else:
+            specs.append(("e", j, 1, False))
+    for _ in range(rng.randint(0, 2)):
+        specs.append(_spec(rng, n, p_any=0.0))
+    rng.shuffle(specs)
+    events += list(group(rng, specs, n))
+    return decorate(rng, states, tuple(events), (), rng.random() < 0.5)
+
+
+SAMPLERS = {"anyfinal": s_anyfinal, "early": s_early, "random": s_random, "wf": s_wf, "big": s_big, "orphan": s_orphan}
